@@ -71,7 +71,7 @@ pure("C34",
      "Pile{a,d}.to_string() minus the symbol must denote a/10^d exactly and parse back to a at divisibility d; Decimal::from_str(s) must hold (value,scale) denoting s; to_integer(d) = Ok(x) only if x is exactly the denoted number of base units. distinct = (kind, divisibility, bit length / outcome class).",
      {"evaluations": 200000, "pile_roundtrip_ok": 50000, "decimal_accept": 2000, "decimal-to-integer_accept": 1000},
      miri=False, budget_quick=15)
-NOT_APPLICABLE = {}
+
 
 pure("C36",
      "differential monitor: Settings::merge (real clap parsing, env map, YAML config found through every route) vs a table-driven reference of the documented precedence, compared through serde_json",
@@ -79,4 +79,37 @@ pure("C36",
      "case = (flags, ORD_ env map, config file contents, chain spelling, config route in {--config, ORD_CONFIG, --config-dir, ORD_CONFIG_DIR, <data-dir>/ord.yaml, none}); expected = flag > env > file > default per key, OR for switches, union for hidden, derived cookie/data-dir/index paths per chain. distinct = per-key source-presence vectors x route.",
      {"evaluations": 5000, "merge_ok": 5000, "per_key_subsets_enumerated": 1},
      miri=False, release=False, budget_quick=10, budget_thorough=90)
+
+
+CHAIN_ASSUME = [
+    "reference models (BIP assign_ordinals, inscription/rune rules written from the docs) and the generator's validity rules are correct; disagreements on the unchanged tree were triaged against the specification text",
+    "node = mockcore with blocks injected into its state; scripts are not executed; the generator follows ord's subsidy schedule (regtest's 150-block halving is not modelled, as in the repository's own tests); coinbase maturity 1 (100 on some thorough shards)",
+    "audits run at quiescent points (after update() returned), on the checked build (overflow checks + debug assertions)",
+]
+
+
+def chain(pid, technique, level_text, rule, floors, budget_quick=40, budget_thorough=480, **kw):
+    CHECKS[pid] = dict(
+        level="exploration", technique=technique, level_text=level_text, rule=rule, floors=floors,
+        shards_quick=16, budget_quick=budget_quick, shards_thorough=16, budget_thorough=budget_thorough,
+        release_pass=False, miri=False, assumptions=CHAIN_ASSUME, crash_is_violation=True, **kw)
+
+
+chain("C01",
+      "differential monitor: real Index (sat index on) vs a naive BIP assign_ordinals reference folded over the same generated chain; full-table audit after (almost) every block",
+      "Exploration over histories: per run ~10^5 blocks in ~10^3 chains of 40-110 blocks (120-400 thorough) with several fee payers per block, splits across outputs, multi-output/under-paying coinbases, zero-value and OP_RETURN outputs, same-block spend chains and byte-identical duplicate coinbases; every unspent output's ranges compared with the reference at each audit, plus 'nothing else listed'.",
+      "chain = random valid blocks (transfer classes, coinbase claims 0..=subsidy+fees over 1-3 outputs, duplicate coinbases in half of the chains) indexed under --index-sats with random other flags and commit intervals {1,2,3,7,5000}; audit compares OUTPOINT_TO_UTXO_ENTRY sat ranges (hook H2) and Index::list with the reference for every unspent output and the lost-sats output. distinct = (index flags, tx count, same-block spends, multi-output coinbases, duplicates, lost ranges) per chain.",
+      {"audits": 2000, "blocks": 5000, "outputs_compared": 100000, "audits_with_lost_sats": 500, "blocks_with_displacing_duplicate": 10})
+
+chain("C02",
+      "invariant monitor over the real index tables: partition (tiling) audit of all sat ranges + consistency of find / find_range / rare-sat lookups with that table, at quiescent points of generated chains",
+      "Exploration over reachable index states (same chains as C01): at each audit all ranges are sorted and must tile [0, first_sat(height)) exactly once up to sats destroyed by duplicate txids; per-output sums equal output values; find() on range boundaries / rare sats / random interior / destroyed / unmined sats, find_range() on random sub-intervals and across the mined end, and the rare-sat table are compared with positions computed from the table.",
+      "model-free except for the list of destroyed ranges (from the reference): tiling, value sums, ~15 find() probes, 4 find_range() probes and the whole rare-sat table per audit. distinct as C01.",
+      {"audits": 2000, "blocks": 5000, "find_ok": 20000, "find_range_ok": 3000, "rare_sats_compared": 20000, "audits_with_destroyed_sats": 100})
+
+chain("C17",
+      "differential monitor: SCRIPT_PUBKEY_TO_OUTPOINT and per-entry script/value of the real index vs the reference UTXO set of the same generated chain; get_address_info per script",
+      "Exploration over histories with few scripts reused heavily (14 scripts incl. P2TR/P2WPKH/P2PKH/P2SH/bare/empty), same-block spends, OP_RETURN outputs; the whole address index is compared at each audit.",
+      "chains as C01 without duplicate coinbases, --index-addresses with random other flags; audit compares the multimap (hook H2) with {(script, outpoint)} of the reference, every entry's script and value with the creating transaction, and get_address_info for every address-able script. distinct as C01.",
+      {"audits": 2000, "blocks": 5000, "address_pairs_compared": 100000, "address_lookups_ok": 10000})
 NOT_APPLICABLE = {}
